@@ -263,7 +263,16 @@ def run(model, col, tier):
             col.obligations.append(ob)
     get = vm.arm("VECTOR_GET")
     s = " ".join(unparse(ast.Module(body=get.body, type_ignores=[])).split())
-    col.check("localScope[instruction.Array.Reference][localScope[instruction.Index.Reference]]" in s, "R04.3", f"{VM}::__Execute element read", "value[index]", None, VM, get.case)
+    from ..sem import rtext as _rt_get
+
+    binds_get = {}
+    for st_ in get.body:
+        if isinstance(st_, ast.Assign) and len(st_.targets) == 1 and isinstance(st_.targets[0], ast.Name):
+            binds_get[st_.targets[0].id] = None if st_.targets[0].id in binds_get else st_.value
+    env_get = {k: v for k, v in binds_get.items() if v is not None}
+    stored_get = [_rt_get(st_.value, env_get) for st_ in get.body if isinstance(st_, ast.Assign) and isinstance(st_.targets[0], ast.Subscript) and unparse(st_.targets[0].value) == "localScope"]
+    col.check("localScope[instruction.Array.Reference][localScope[instruction.Index.Reference]]" in s or
+              any(t_ == "localScope[instruction.Array.Reference][localScope[instruction.Index.Reference]]" for t_ in stored_get), "R04.3", f"{VM}::__Execute element read", "value[index]", None, VM, get.case)
     for opc in ("VECTOR_SET", "MATRIX_SET"):
         a = vm.arm(opc)
         s = " ".join(unparse(ast.Module(body=a.body, type_ignores=[])).split())
